@@ -363,7 +363,13 @@ def rule_a5_span(chk: Check):
     # backwards scan starts at index-1 and steps by -1
     txt = [norm_stmt(s) for s in fn.body]
     chk.count("A5-span-body")
-    chk.require(any(t == "idx = self._index - 1" for t in txt) and any("idx -= 1" in norm_stmt(s) for s in ast.walk(fn) if isinstance(s, ast.AugAssign)),
+    # accepted idioms: `idx = self._index - 1; while idx >= 0: ...; idx -= 1`  or  `for idx in range(self._index - 1, -1, -1): ...`
+    while_form = any(t == "idx = self._index - 1" for t in txt) and \
+        any("idx -= 1" in norm_stmt(s) for s in ast.walk(fn) if isinstance(s, ast.AugAssign)) and \
+        any(isinstance(s, ast.While) and norm_stmt(s.test) in ("idx >= 0", "idx > -1") for s in ast.walk(fn))
+    for_form = any(isinstance(s, ast.For) and norm_stmt(s.iter) in ("range(self._index - 1, -1, -1)", "reversed(range(self._index))")
+                   for s in ast.walk(fn))
+    chk.require(while_form or for_form,
                 "A5-span-body", "Tokenizer.get_last_non_whitespace_token:scan", f"{repo.TOKENIZER}:{fn.lineno}",
                 "the scan for the last consumed token must start at the token before the current index and walk backwards")
 
@@ -561,6 +567,83 @@ def run(chk: Check):
     chk.floor("A9-argument-layout", 7)
 
 
+class _BlankEnv:
+    """Finite-domain environment for Tokenizer.is_blank: evaluates the expressions the function is made of."""
+
+    def __init__(self, tokparam, kind, blank, raw, prev):
+        self.tokparam, self.kind, self.blank, self.raw, self.prev = tokparam, kind, blank, raw, prev
+
+    def ev(self, e):
+        if isinstance(e, ast.Constant):
+            return e.value
+        if isinstance(e, ast.BoolOp):
+            v = None
+            for x in e.values:
+                v = self.ev(x)
+                if isinstance(e.op, ast.And) and not v:
+                    return v
+                if isinstance(e.op, ast.Or) and v:
+                    return v
+            return v
+        if isinstance(e, ast.UnaryOp) and isinstance(e.op, ast.Not):
+            return not self.ev(e.operand)
+        if isinstance(e, ast.Call) and isinstance(e.func, ast.Name) and e.func.id == "bool" and len(e.args) == 1:
+            return bool(self.ev(e.args[0]))
+        if isinstance(e, (ast.Set, ast.Tuple, ast.List)):
+            return [self.ev(x) for x in e.elts]
+        if isinstance(e, ast.Compare) and len(e.ops) == 1:
+            a, b = self.ev(e.left), self.ev(e.comparators[0])
+            op = e.ops[0]
+            if isinstance(op, (ast.Eq, ast.Is)):
+                return a == b
+            if isinstance(op, (ast.NotEq, ast.IsNot)):
+                return a != b
+            if isinstance(op, ast.In):
+                return a in b
+            if isinstance(op, ast.NotIn):
+                return a not in b
+        s = norm_stmt(e)
+        t = self.tokparam
+        if s.startswith("Token.") and s.count(".") == 1:
+            return ("Token", s.split(".")[1])
+        if s == f"{t}.type":
+            return ("Token", self.kind)
+        if s == f"{t}.string.isspace()":
+            return self.blank
+        if s == f"not {t}.string.strip()":
+            return self.blank
+        if s == "self._proc_macro":
+            return self.raw
+        if s == "self._tokens":
+            return [] if self.prev is None else ["prev"]
+        if s == "len(self._tokens)":
+            return 0 if self.prev is None else 1
+        if s == "self._tokens[-1].type":
+            if self.prev is None:
+                raise AnalysisError("is_blank reads the previous token without testing that there is one")
+            return ("Token", self.prev)
+        raise AnalysisError(f"is_blank: expression outside the finite domain: {s}")
+
+
+def _eval_paths(ps, env):
+    """Result of the one feasible path under `env` (paths are mutually exclusive by construction)."""
+    for pth in ps:
+        ok = True
+        for x in pth:
+            if x[0] == "cond":
+                if bool(env.ev(ast.parse(x[1], mode="eval").body)) != x[2]:
+                    ok = False
+                    break
+            elif x[0] == "do":
+                raise AnalysisError(f"is_blank has an effect: {x[1]}")
+        if ok:
+            kind, val = pth[-1][1], pth[-1][2]
+            if kind != "return":
+                return None
+            return env.ev(ast.parse(val, mode="eval").body)
+    return None
+
+
 # ------------------------------------------------------------------ runtime combinators the generated code relies on
 def rule_combinators(chk: Check):
     """Backtracking discipline of the hand-written combinators (every generated rule is built from them) and the
@@ -676,30 +759,38 @@ def rule_combinators(chk: Check):
     chk.require(paths(f) == {(("cond", "sep_func(*sep_args) and (v0 := self.seq_alts(func))", True), ("return", "v0")),
                              (("cond", "sep_func(*sep_args) and (v0 := self.seq_alts(func))", False), ("return", "None"))}, R,
                 "Parser.sep_repeated", f.where, "a separated repetition step is separator then element, returning the element")
-    # the token filter between tokenizer and parser
+    # the token filter between tokenizer and parser: decided as a truth table over a finite domain (token kind x blank text x
+    # raw-capture flag x "previous kept token is NEWLINE"), so the shape of the function is irrelevant
     f = fn("Tokenizer.is_blank")
     chk.count(R)
-    want = {
-        (("cond", "self._proc_macro and tok.type == Token.WS", True), ("return", "False")),
-        (("cond", "self._proc_macro and tok.type == Token.WS", False), ("cond", "tok.type in {Token.NL, Token.COMMENT, Token.WS}", True), ("return", "True")),
-        (("cond", "self._proc_macro and tok.type == Token.WS", False), ("cond", "tok.type in {Token.NL, Token.COMMENT, Token.WS}", False),
-         ("cond", "tok.type == Token.ERRORTOKEN and tok.string.isspace()", True), ("return", "True")),
-        (("cond", "self._proc_macro and tok.type == Token.WS", False), ("cond", "tok.type in {Token.NL, Token.COMMENT, Token.WS}", False),
-         ("cond", "tok.type == Token.ERRORTOKEN and tok.string.isspace()", False),
-         ("cond", "tok.type == Token.NEWLINE and self._tokens and (self._tokens[-1].type == Token.NEWLINE)", True), ("return", "True")),
-        (("cond", "self._proc_macro and tok.type == Token.WS", False), ("cond", "tok.type in {Token.NL, Token.COMMENT, Token.WS}", False),
-         ("cond", "tok.type == Token.ERRORTOKEN and tok.string.isspace()", False),
-         ("cond", "tok.type == Token.NEWLINE and self._tokens and (self._tokens[-1].type == Token.NEWLINE)", False), ("return", "False")),
-    }
-    chk.require(paths(f) == want, R, "Tokenizer.is_blank", f.where,
+    from ..pyflow import stmt_paths
+    kinds = sorted(repo.token_enum_names())
+    bad = []
+    try:
+        ps = stmt_paths(f.node.body)
+        tokparam = [a.arg for a in f.node.args.args][1]
+        for kind in kinds:
+            for blank in (False, True):
+                for raw in (False, True):
+                    for prev in (None, "NEWLINE", "NAME"):
+                        got = _eval_paths(ps, _BlankEnv(tokparam, kind, blank, raw, prev))
+                        want = (kind in ("NL", "COMMENT") or (kind == "WS" and not raw) or (kind == "ERRORTOKEN" and blank)
+                                or (kind == "NEWLINE" and prev == "NEWLINE"))
+                        if got is None or bool(got) != want:
+                            bad.append((kind, "blank" if blank else "text", "raw" if raw else "normal", prev, got))
+    except AnalysisError as e:
+        bad.append(("not evaluable", str(e)))
+    chk.require(not bad, R, "Tokenizer.is_blank", f.where,
                 "the token filter must drop exactly NL, COMMENT, WS (outside raw capture), blank ERRORTOKENs and a NEWLINE that directly "
-                "follows a NEWLINE")
+                f"follows a NEWLINE; it differs on (kind, text, mode, previous, result) = {bad[:3]}")
     # position bookkeeping of the token cache
     f = fn("Tokenizer.getnext")
     chk.count(R)
     src = [norm_stmt(s0) for s0 in f.node.body if not (isinstance(s0, ast.Expr) and isinstance(s0.value, ast.Constant))]
-    chk.require("tok = self.peek()" in src and "self._index = Mark(self._index + Mark(1))" in src and src[-1] == "return tok"
-                and src.index("tok = self.peek()") < src.index("self._index = Mark(self._index + Mark(1))"), R, "Tokenizer.getnext", f.where,
+    adv = [x for x in src if x in ("self._index = self._index + 1", "self._index += 1", "self._index = 1 + self._index")]
+    chk.require("tok = self.peek()" in src and len(adv) == 1 and src[-1] == "return tok"
+                and src.index("tok = self.peek()") < src.index(adv[0]) and
+                sum(1 for x in src if x.startswith("self._index")) == 1, R, "Tokenizer.getnext", f.where,
                 "`getnext` must return the token at the current index and advance the index by exactly one")
     f = fn("Tokenizer.peek")
     chk.count(R)
